@@ -500,6 +500,11 @@ PINS = [
     ('pin_SE3_r3', 'se3.hpp', r'Eigen::Map<const Eigen::Vector3<Scalar>> r3\(\) const'),
     ('pin_SE2_ctor_parts', 'se2.hpp', r'SE2\(const SO2Base<SO2Derived> & so2, const Eigen::MatrixBase<T2Derived> & r2\)'),
     ('pin_SE3_ctor_parts', 'se3.hpp', r'SE3\(const SO3Base<SO3Derived> & so3, const Eigen::MatrixBase<T3Derived> & r3\)'),
+    # from-parts constructors of Galilei and SE_K_3 (their coefficient layout is compared bit for bit by the ops conv_gal_parts_ctor /
+    # conv_sek2_parts_ctor; the bodies are pinned so that a change is reported independently of the generated inputs)
+    ('pin_Galilei_ctor_parts', 'galilei.hpp', r'Galilei\(\s*const SO3Base<SO3Derived> & so3,\s*const Eigen::MatrixBase<T1> & r3_v,\s*'
+                                              r'const Eigen::MatrixBase<T2> & r3_p,\s*double r1_t = 0\)'),
+    ('pin_SEK3_ctor_parts', 'se_k_3.hpp', r'SE_K_3\(const SO3Base<SO3Derived> & so3, const Eigen::MatrixBase<RnDerived> &\.\.\. r3s\)'),
 ]
 
 
